@@ -44,6 +44,10 @@ FILE_POOL = [
     "sub/._h",
     "a{b}.txt",
     "sub/{0}",
+    # ordinary payload names that happen to be on the standard library's filecmp.DEFAULT_IGNORES list
+    "tags",
+    "sub/tags",
+    "__pycache__/m.pyc",
 ]
 PROJECT_ENTRIES = ("Project.sync", "sync_projects")
 JOB_ENTRIES = ("Job.sync", "sync_jobs")
